@@ -90,7 +90,7 @@ class CallbackContext(Location, ActionCallback):
         for callback in self.__callbacks:
             try:
                 callback.process(ctx, event, frame, arg)
-            except Exception:
+            except BaseException:
                 # one callback failing (e.g. a snapshot that cannot be handed over) must not stop the others (e.g. a
                 # span of another tracepoint that has to be closed)
                 logging.exception("Cannot complete %s", callback)
